@@ -6,14 +6,13 @@ CONSTANTS
   CheckMode = "once"
   ForgetMode = "name"
   RenewMode = "restart"
-  W = 2
+  W = 3
   AccN = 6
-  MaxArr = 3
-  MaxT = 1
-  REPS = {1}
-  Garbage = FALSE
-  Staged = FALSE
+  MaxArr = 6
+  MaxT = 3
+  REPS = {1, 2}
+  Garbage = TRUE
+  Staged = TRUE
   PsFree = TRUE
-  InitSets = {{"p1", "p2"}}
-VIEW View
+  InitSets = {{"p1"}, {"p1", "p2"}}
 INVARIANTS InvAtMostOne InvIsLatest InvValidUnexpiredMember InvNoFalseAlarm InvAlertOnce InvReported InvForgotten InvUsed InvObserverSane
